@@ -154,7 +154,7 @@ func TestC12(t *testing.T) {
 			}
 		})
 		// 3. shared byte-level generators for breadth
-		e.feed(feedOpts{counts: 1, shortlexQ: 3, shortlexT: 5, sweepQ: 40, sweepT: 3000, mutQ: 10000, mutT: 500000},
+		e.feed(feedOpts{counts: 1, templateSweep: true, shortlexQ: 3, shortlexT: 5, sweepQ: 40, sweepT: 3000, mutQ: 10000, mutT: 500000},
 			func(kind string, in []byte) error { return eval(kind, in) })
 	})
 }
